@@ -1,0 +1,41 @@
+//go:build verif
+
+package stanza
+
+// Accessors used by the verification harness (build tag `verif` only). They add no behaviour.
+
+import (
+	"encoding/xml"
+	"reflect"
+	"sort"
+)
+
+// VerifRegistryEntry is one TypeRegistry mapping: packet type, element name, registered Go type.
+type VerifRegistryEntry struct {
+	Packet PacketType
+	Name   xml.Name
+	Type   reflect.Type
+}
+
+// VerifRegistryEntries lists the content of TypeRegistry in a fixed order.
+func VerifRegistryEntries() []VerifRegistryEntry {
+	TypeRegistry.msgTypesLock.RLock()
+	defer TypeRegistry.msgTypesLock.RUnlock()
+	var out []VerifRegistryEntry
+	for key, store := range TypeRegistry.msgTypes {
+		for local, t := range store {
+			out = append(out, VerifRegistryEntry{Packet: key.packetType, Name: xml.Name{Space: key.namespace, Local: local}, Type: t})
+		}
+	}
+	sort.Slice(out, func(i, j int) bool {
+		a, b := out[i], out[j]
+		if a.Packet != b.Packet {
+			return a.Packet < b.Packet
+		}
+		if a.Name.Space != b.Name.Space {
+			return a.Name.Space < b.Name.Space
+		}
+		return a.Name.Local < b.Name.Local
+	})
+	return out
+}
